@@ -91,6 +91,10 @@ func TestChannelMux(t *testing.T) {
 	pbt.Check(t, 600, 25000, func(rt *rapid.T) {
 		c := streamCase{Comb: "ChannelMux", Procs: genProcs(rt)}
 		c.Workers = rapid.IntRange(1, 4).Draw(rt, "pipelines")
+		if rapid.IntRange(0, 5).Draw(rt, "manyPipelines") == 0 {
+			// around and beyond the size the mux preallocates its pipeline table with
+			c.Workers = rapid.SampledFrom([]int{8, q - 1, q, q + 1, q + 14}).Draw(rt, "pipelinesMany")
+		}
 		c.PipeBuf = rapid.SampledFrom([]int{0, 1, 10}).Draw(rt, "pipe_buf")
 		c.Lazy = rapid.Bool().Draw(rt, "lazy")
 		c.N = genN(rt, 5000, 10, q, 5*q, 6*q, 6*q+c.Workers*(2*c.PipeBuf+1)+1)
@@ -98,12 +102,18 @@ func TestChannelMux(t *testing.T) {
 		for i := range route {
 			route[i] = i
 		}
-		c.Route = genPattern(rt, "route", 16, route)
+		c.Route = genPattern(rt, "route", max(16, 2*c.Workers), route)
 		c.Prod = genLat(rt, c.N, "prod")
 		c.Stage = genLat(rt, c.N, "stage")
 		c.Cons = genLat(rt, c.N, "cons")
 		sample(t, c)
-		pbt.Class(rt, fmt.Sprintf("pipelines=%d", c.Workers))
+		if c.Workers > q {
+			pbt.Class(rt, "pipelines>preallocated-table")
+		} else if c.Workers > 4 {
+			pbt.Class(rt, "pipelines=5.."+fmt.Sprint(q))
+		} else {
+			pbt.Class(rt, fmt.Sprintf("pipelines=%d", c.Workers))
+		}
 		runCase(rt, c)
 	})
 }
